@@ -13,6 +13,7 @@ namespace drv {
 
 SlotCfg cfg[NSLOT + 1];
 std::unique_ptr<Mock> mocks[NMOCK];
+std::unique_ptr<MockN> nmock;
 std::unique_ptr<trompeloeil::sequence> seqs[NSEQ + 1];
 std::unique_ptr<trompeloeil::expectation> exps[NSLOT + 1];
 std::unique_ptr<DW> objs[NOBJ + 1];
@@ -84,6 +85,7 @@ static std::unique_ptr<STr> stracers[NTR + 1];
 
 static int do_call(int m, int f, int a, int b)
 {
+  if (m == NM_ID) return nmock->f(a);
   switch (f) {
   case 1: return mocks[m]->f(a);
   case 2: return mocks[m]->f(std::string("s") + std::to_string(a));
@@ -98,7 +100,9 @@ void nested_call(int slot)
 {
   // a side effect that calls a mock function (the global lock is recursive); nesting is limited to one level
   auto& n = cfg[slot].nest;
-  if (nest_depth > 0 || n[0] < 0 || n[0] >= NMOCK || !mocks[n[0]] || n[1] < 1 || n[1] > 4) return;
+  if (nest_depth > 0 || n[1] < 1 || n[1] > 4) return;
+  if (n[0] == NM_ID) { if (!nmock || n[1] != 1) return; }
+  else if (n[0] < 0 || n[0] >= NMOCK || !mocks[n[0]]) return;
   struct G { G() { ++nest_depth; } ~G() { --nest_depth; } } g;
   do_call(n[0], n[1], n[2], n[3]);
 }
@@ -215,7 +219,7 @@ static size_t run_block(std::vector<std::string> const& lines, size_t i)
       try {
         if (!mon) {
           int s = A(0);
-          if (oks_(s) && !exps[s] && !scoped_exp[s] && okm(A(2)) && mocks[A(2)]) {
+          if (oks_(s) && !exps[s] && !scoped_exp[s] && ((A(2) == NM_ID && nmock) || (okm(A(2)) && mocks[A(2)]))) {
             SlotCfg& c = cfg[s]; c = SlotCfg{}; c.mock = A(2);
             c.p[0] = {A(3), A(4)}; c.p[1] = {A(5), A(6)};
             c.w[0] = {A(7), A(8)}; c.w[1] = {A(9), A(10)}; c.w[2] = {A(11), A(12)};
@@ -272,13 +276,13 @@ static void run_op(std::string const& line)
   bool skip = false;
   try {
     if (op == "mock") {
-      if (okm(A(0)) && !mocks[A(0)]) mocks[A(0)] = std::make_unique<Mock>(); else skip = true;
+      if (A(0) == NM_ID && !nmock) nmock = std::make_unique<MockN>(); else if (okm(A(0)) && !mocks[A(0)]) mocks[A(0)] = std::make_unique<Mock>(); else skip = true;
     } else if (op == "seq") {
       if (okq(A(0)) && !seqs[A(0)]) seqs[A(0)] = std::make_unique<trompeloeil::sequence>(); else skip = true;
     } else if (op == "expect") {
       // expect slot shape mock p1op p1v p2op p2v w1op w1v w2op w2v w3op w3v se1 se2 se3 retv lo hi q1 q2 [nm nf na nb]
       int s = A(0);
-      if (!oks_(s) || exps[s] || scoped_exp[s] || !okm(A(2)) || !mocks[A(2)]) skip = true;
+      if (!oks_(s) || exps[s] || scoped_exp[s] || !((A(2) == NM_ID && nmock) || (okm(A(2)) && mocks[A(2)]))) skip = true;
       else {
         SlotCfg& c = cfg[s];
         c = SlotCfg{};
@@ -293,11 +297,11 @@ static void run_op(std::string const& line)
         else if (!make_expectation(s, A(1))) skip = true;
       }
     } else if (op == "call") {
-      if (okm(A(0)) && mocks[A(0)]) ret = do_call(A(0), A(1), A(2), A(3)); else skip = true;
+      if ((A(0) == NM_ID && nmock && A(1) == 1) || (okm(A(0)) && mocks[A(0)])) ret = do_call(A(0), A(1), A(2), A(3)); else skip = true;
     } else if (op == "release") {
       if (oks_(A(0)) && exps[A(0)]) exps[A(0)].reset(); else skip = true;
     } else if (op == "dmock") {
-      if (okm(A(0)) && mocks[A(0)]) mocks[A(0)].reset(); else skip = true;
+      if (A(0) == NM_ID && nmock) nmock.reset(); else if (okm(A(0)) && mocks[A(0)]) mocks[A(0)].reset(); else skip = true;
     } else if (op == "mmock") {
       if (okm(A(0)) && okm(A(1)) && mocks[A(0)] && !mocks[A(1)]) mocks[A(1)] = std::make_unique<Mock>(std::move(*mocks[A(0)]));
       else skip = true;
@@ -383,6 +387,7 @@ static int run_segment(std::vector<std::string> const& ops)
     for (int k = 1; k <= NMON; ++k) mons[k].reset();
     for (int o = 1; o <= NOBJ; ++o) objs[o].reset();
     for (int m = 0; m < NMOCK; ++m) mocks[m].reset();
+    nmock.reset();
     for (int q = 1; q <= NSEQ; ++q) seqs[q].reset();
     // tracers: only a LIFO-safe order is used here (creation order unknown -> destroy those whose
     // destruction is the script's business; the generator always destroys tracers explicitly)
